@@ -57,6 +57,7 @@ type Ctx struct {
 	Rules       map[string]*RuleStat
 	ruleOrder   []string
 	Assumptions []string
+	condIssues  []condIssue // C20: redactions that can be skipped depending on unrelated state
 	NotDecided  []string
 	Explanation string
 	FuncsSeen   map[string]bool
